@@ -20,7 +20,7 @@ Cat ==
   ("delimiter"        :> {"survey", "choices"}) @@               \* process_header: ':' vs '::', spaces around
   ("type_alias"       :> {"survey"}) @@                          \* aliases.select / control regexes / _type_alias_map
   ("truth_spelling"   :> {"survey", "settings"}) @@                          \* aliases.yes_no / BINDING_CONVERSIONS
-  ("smart_quotes"     :> {"survey"}) @@                          \* clean_text_values
+  ("smart_quotes"     :> {"survey", "choices"}) @@                         \* clean_text_values
   ("pad_cells"        :> {"survey", "choices", "settings"}) @@   \* clean_text_values / cell strip
   ("permute_columns"  :> {"survey", "choices", "settings"}) @@
   ("permute_sheets"   :> {"workbook"}) @@
